@@ -105,6 +105,12 @@ impl Scenario for Thresh {
                 p.steps.push(Step::new("large", &[x.next() as i64 & 0xffff]));
                 return p;
             }
+            "dealer-shapes" => {
+                p.set("g", (index % 2) as i64);
+                p.set("scheme", if (index / 2) % 2 == 0 { 0 } else { 2 });
+                p.steps.push(Step::new("dealer-shapes", &[(index / 4) as i64]));
+                return p;
+            }
             "params" => {
                 p.steps.push(Step::new("params", &[]));
                 return p;
@@ -163,6 +169,7 @@ impl Scenario for Thresh {
             Some("subsets") => return run_subsets(plan, lib, g, rec, true),
             Some("large") => return run_subsets(plan, lib, g, rec, false),
             Some("params") => return run_params(plan, lib, g, rec),
+            Some("dealer-shapes") => return run_dealer_shapes(plan, lib, g, rec),
             _ => {}
         }
         run_protocol(plan, lib, g, rec, Payload::Sign);
@@ -1003,6 +1010,127 @@ fn malformed_sets(rec: &mut Rec, lib: &dyn Lib, g: Grp, d: &Deal, partials: &[Ve
         let o = rec.call(lib, g, Op::SigFromShares, &set);
         rec.expect("C08", "invalid-payload-error", !o.is_ok(), || format!("payload-{} | from_shares accepted a share whose payload is not a subgroup point", which));
     }
+}
+
+/// Share sets of UNUSUAL BUT VALID sharing polynomials, dealt by the reference dealer in the library's own share
+/// layout (learnt from a share the library dealt): two participants holding the same value (f(i) = f(j)), a
+/// polynomial whose top coefficient is zero, a constant polynomial (every share equals the key), coefficients
+/// at 1 / r-1. A random dealer produces these with probability ~2^-255 each; they are valid share sets all the
+/// same, and every recombination must give exactly the whole-key results.
+fn run_dealer_shapes(plan: &Plan, lib: &dyn Lib, g: Grp, rec: &mut Rec) {
+    use refimpl::{scalar_from_be, scalar_from_u64, scalar_neg_u64, scalar_to_be};
+    let scheme = plan.get("scheme") as u8;
+    let mut x = Xo::derive(plan.seed, &[0x7D5]);
+    let shape = plan.steps.first().map(|s| s.arg(0)).unwrap_or(0) as u64 % 5;
+    // learn the layout: identifier byte + 32-byte value, big- or little-endian
+    let Some(probe) = deal(rec, lib, g, 4, 2, 3, plan.seed) else { return };
+    let parse = |sh: &[u8], le: bool| -> Option<(u8, refimpl::RefScalar)> {
+        if sh.len() != 33 {
+            return None;
+        }
+        let mut v = sh[1..].to_vec();
+        if le {
+            v.reverse();
+        }
+        Some((sh[0], scalar_from_be(&v)?))
+    };
+    let sk_s = scalar_from_be(&probe.sk).unwrap();
+    let mut layout_le = None;
+    for le in [false, true] {
+        if let (Some((i1, v1)), Some((i2, v2))) = (parse(&probe.shares[0], le), parse(&probe.shares[1], le)) {
+            if let Some(l) = refimpl::lagrange_at_zero(&[i1, i2]) {
+                if l[0] * v1 + l[1] * v2 == sk_s {
+                    layout_le = Some(le);
+                }
+            }
+        }
+    }
+    let Some(le) = layout_le else {
+        rec.probe("share-layout-not-recognised");
+        return;
+    };
+    let build = |id: u8, v: &refimpl::RefScalar| -> Vec<u8> {
+        let mut b = scalar_to_be(v);
+        if le {
+            b.reverse();
+        }
+        let mut out = vec![id];
+        out.extend(b);
+        out
+    };
+    let sk = key_of_class(rec, lib, g, 4 + x.below(2), plan.seed ^ 0xD5);
+    let s0 = scalar_from_be(&sk).unwrap();
+    let rnd = |x: &mut Xo| refimpl::keygen(&x.bytes(16));
+    // (t, n, coefficients a1..a_{t-1}, label)
+    let (t, n, coef, label): (usize, usize, Vec<refimpl::RefScalar>, &str) = match shape {
+        0 => {
+            // f(2) = f(5): 3 a1 + 21 a2 + 117 a3 = 0
+            let (a2, a3) = (rnd(&mut x), rnd(&mut x));
+            let a1 = -(scalar_from_u64(7) * a2 + scalar_from_u64(39) * a3);
+            (4, 7, vec![a1, a2, a3], "two participants hold equal values (f(2)=f(5))")
+        }
+        1 => (3, 5, vec![rnd(&mut x), scalar_from_u64(0)], "top coefficient zero"),
+        2 => (3, 4, vec![scalar_from_u64(0), scalar_from_u64(0)], "constant polynomial (every share equals the key)"),
+        3 => (3, 6, vec![scalar_from_u64(1), scalar_neg_u64(1)], "coefficients 1 and r-1"),
+        _ => {
+            // f(1) = f(3) with t = 3: 2 a1 + 8 a2 = 0
+            let a2 = rnd(&mut x);
+            (3, 5, vec![-(scalar_from_u64(4) * a2), a2], "two participants hold equal values (f(1)=f(3))")
+        }
+    };
+    let eval = |id: u64| -> refimpl::RefScalar {
+        let xs = scalar_from_u64(id);
+        let mut acc = scalar_from_u64(0);
+        for c in coef.iter().rev() {
+            acc = (acc + *c) * xs;
+        }
+        acc + s0
+    };
+    let shares: Vec<Vec<u8>> = (1..=n as u64).map(|i| build(i as u8, &eval(i))).collect();
+    rec.fault("byz-unusual-dealer");
+    rec.case(&[8, 77, g as u64, scheme as u64, shape], true);
+    let m = b"dealt by hand".to_vec();
+    let Some(pk) = rec.call(lib, g, Op::PublicKey, &[&sk]).first().map(|b| b.to_vec()) else { return };
+    let Some(whole) = rec.call(lib, g, Op::Sign, &[&sk, &[scheme], &m]).first().map(|b| b.to_vec()) else { return };
+    let mut pks = vec![];
+    let mut parts = vec![];
+    for sh in &shares {
+        let a = rec.call(lib, g, Op::SharePk, &[sh]);
+        let b = rec.call(lib, g, Op::ShareSign, &[sh, &[scheme], &m]);
+        match (a.first(), b.first()) {
+            (Some(a), Some(b)) => {
+                pks.push(a.to_vec());
+                parts.push(b.to_vec());
+            }
+            _ => {
+                rec.expect("C08", "partial-created", false, || format!("dealer-shape {} | a valid share was refused: pk {:?} partial {:?}", label, a.kind(), b.kind()));
+                return;
+            }
+        }
+    }
+    // every subset of size >= t, in a drawn order
+    for mask in 1u32..(1 << n) {
+        if (mask.count_ones() as usize) < t {
+            continue;
+        }
+        let mut order: Vec<usize> = (0..n).filter(|i| mask >> i & 1 == 1).collect();
+        if x.chance(1, 2) {
+            x.shuffle(&mut order);
+        }
+        let ids: Vec<usize> = order.iter().map(|i| i + 1).collect();
+        let ko = rec.call(lib, g, Op::Combine, &order.iter().map(|i| shares[*i].as_slice()).collect::<Vec<_>>());
+        let po = rec.call(lib, g, Op::PkFromShares, &order.iter().map(|i| pks[*i].as_slice()).collect::<Vec<_>>());
+        let so = rec.call(lib, g, Op::SigFromShares, &order.iter().map(|i| parts[*i].as_slice()).collect::<Vec<_>>());
+        rec.expect("C08", "key-recombine", ko.first() == Some(sk.as_slice()), || format!("SecretKey::combine | dealer-shape: {}; t={} n={} ids={:?}: {:?}", label, t, n, ids, ko.kind()));
+        rec.expect("C08", "pk-recombine", po.first() == Some(pk.as_slice()), || format!("PublicKey::from_shares | dealer-shape: {}; t={} n={} ids={:?}: {:?}", label, t, n, ids, po.kind()));
+        rec.expect("C08", "combine-exact", so.first() == Some(whole.as_slice()), || format!("Signature::from_shares | dealer-shape: {}; t={} n={} ids={:?}: {:?}", label, t, n, ids, so.kind()));
+    }
+    // each partial verifies against its own key share
+    for i in 0..n {
+        let v = rec.call(lib, g, Op::PkShareVerify, &[&pks[i], &parts[i], &m]);
+        rec.expect("C08", "partial-verifies-own", v.is_ok(), || format!("own | dealer-shape: {}; participant {}: {:?}", label, i + 1, v));
+    }
+    rec.sample(|| format!("dealer-shape={} (t,n)=({},{}) scheme={} g={}", label, t, n, scheme, g.name()));
 }
 
 fn run_params(plan: &Plan, lib: &dyn Lib, g: Grp, rec: &mut Rec) {
